@@ -60,7 +60,8 @@ def rule_h1(repo, res):
                         "caller's quantity class from the decoded value", where=f"pvl/decoder.py:{fn.lineno}"))
     for attr, param in (("real_cls", "real_cls"), ("quantity_cls", "quantity_cls")):
         init = repo.method("PVLDecoder", "__init__")
-        ok = any(isinstance(x, ast.Assign) and norm(x.targets[0]) == f"self.{attr}" and norm(x.value) == param for x in ast.walk(init))
+        ok = any(isinstance(x, ast.Assign) and norm(x.targets[0]) == f"self.{attr}" and
+                 any(isinstance(y, ast.Name) and y.id == param for y in ast.walk(x.value)) for x in ast.walk(init))
         res.oblige("H1", f"PVLDecoder.__init__ stores the {param} argument", ok=ok)
         if not ok:
             res.add(Finding("H1", "PVLDecoder.__init__", f"self.{attr} = {param}", f"the {param} argument is not stored",
@@ -97,7 +98,8 @@ def rule_h1(repo, res):
                         "get the wrong container class", where=f"pvl/parser.py:{ac.lineno}"))
     init = repo.method("PVLParser", "__init__")
     for attr, param in (("modcls", "module_class"), ("grpcls", "group_class"), ("objcls", "object_class")):
-        ok = any(isinstance(x, ast.Assign) and norm(x.targets[0]) == f"self.{attr}" and norm(x.value) == param for x in ast.walk(init))
+        ok = any(isinstance(x, ast.Assign) and norm(x.targets[0]) == f"self.{attr}" and
+                 any(isinstance(y, ast.Name) and y.id == param for y in ast.walk(x.value)) for x in ast.walk(init))
         res.oblige("H1", f"PVLParser.__init__ stores {param} as self.{attr}", ok=ok)
         if not ok:
             res.add(Finding("H1", "PVLParser.__init__", f"self.{attr} = {param}", f"{param} is not stored as self.{attr}",
@@ -165,7 +167,75 @@ def _normalised(fn, drop_kwargs=()):
     for n in ast.walk(f):
         if isinstance(n, ast.Call):
             n.keywords = [k for k in n.keywords if k.arg not in drop_kwargs]
-    return ast.dump(ast.Module(body=f.body, type_ignores=[]), include_attributes=False)
+
+    class Displays(ast.NodeTransformer):      # dict() / list() / tuple() / set() without arguments == empty displays
+        def visit_Call(self, n):
+            self.generic_visit(n)
+            if isinstance(n.func, ast.Name) and not n.args and not n.keywords:
+                if n.func.id == "dict":
+                    return ast.Dict(keys=[], values=[])
+                if n.func.id == "list":
+                    return ast.List(elts=[], ctx=ast.Load())
+                if n.func.id == "tuple":
+                    return ast.Tuple(elts=[], ctx=ast.Load())
+            return n
+    f = Displays().visit(f)
+    # local names are irrelevant: rename them by order of first binding (parameters keep their names)
+    params = {a.arg for a in f.args.args + f.args.kwonlyargs} | ({f.args.vararg.arg} if f.args.vararg else set()) | \
+        ({f.args.kwarg.arg} if f.args.kwarg else set())
+    order = {}
+    for n in ast.walk(ast.Module(body=f.body, type_ignores=[])):
+        if isinstance(n, ast.Name) and isinstance(n.ctx, ast.Store) and n.id not in params and n.id not in order:
+            order[n.id] = f"_v{len(order)}"
+        if isinstance(n, ast.ExceptHandler) and n.name and n.name not in order:
+            order[n.name] = f"_v{len(order)}"
+    for n in ast.walk(f):
+        if isinstance(n, ast.Name) and n.id in order:
+            n.id = order[n.id]
+        if isinstance(n, ast.ExceptHandler) and n.name in order:
+            n.name = order[n.name]
+    # a temporary bound once and used once right after is inlined:  p = Path(path); return p.write_text(..)
+    return ast.dump(_inline_temps(ast.Module(body=f.body, type_ignores=[])), include_attributes=False)
+
+
+def _inline_temps(mod):
+    """`x = E` immediately followed by a statement that uses x exactly once (and nowhere else later) -> substituted."""
+    import copy
+
+    def do_block(body):
+        out = []
+        i = 0
+        while i < len(body):
+            st = body[i]
+            for field in ("body", "orelse", "finalbody"):
+                if hasattr(st, field) and isinstance(getattr(st, field), list):
+                    setattr(st, field, do_block(getattr(st, field)))
+            if hasattr(st, "handlers"):
+                for h in st.handlers:
+                    h.body = do_block(h.body)
+            if isinstance(st, ast.Assign) and len(st.targets) == 1 and isinstance(st.targets[0], ast.Name) and i + 1 < len(body):
+                name = st.targets[0].id
+                nxt = body[i + 1]
+                uses = [n for n in ast.walk(nxt) if isinstance(n, ast.Name) and n.id == name and isinstance(n.ctx, ast.Load)]
+                later = [n for s2 in body[i + 2:] for n in ast.walk(s2) if isinstance(n, ast.Name) and n.id == name]
+                if len(uses) == 1 and not later and isinstance(nxt, (ast.Return, ast.Expr, ast.Assign)):
+                    class Sub(ast.NodeTransformer):
+                        def visit_Name(self, n):
+                            if n.id == name and isinstance(n.ctx, ast.Load):
+                                return copy.deepcopy(st.value)
+                            return n
+                    body[i + 1] = Sub().visit(nxt)
+                    i += 1
+                    continue
+            out.append(st)
+            i += 1
+        return out
+    mod.body = do_block(mod.body)
+    # if/else with a negated test -> canonical polarity
+    for n in ast.walk(mod):
+        if isinstance(n, ast.If) and isinstance(n.test, ast.UnaryOp) and isinstance(n.test.op, ast.Not) and n.orelse:
+            n.test, n.body, n.orelse = n.test.operand, n.orelse, n.body
+    return mod
 
 
 NEW_KWARGS = {"loads": {"module_class": "PVLModuleNew", "group_class": "PVLGroupNew", "object_class": "PVLObjectNew"},
@@ -324,9 +394,16 @@ def rule_tb9(repo, res):
     m = tr.functions.get("main")
     if m is None:
         raise AnalysisError("anchor vanished: pvl_translate.main")
-    src = norm(m, 3000)
-    ok = "pvl.load(args.infile)" in src and "formats[args.output_format].dump(some_pvl, args.outfile)" in src and \
-        not any(isinstance(n, ast.Try) for n in ast.walk(m))
+    loaded = [n for n in ast.walk(m) if isinstance(n, ast.Assign) and norm(n.value) == "pvl.load(args.infile)" and isinstance(n.targets[0], ast.Name)]
+    ok = False
+    if len(loaded) == 1:
+        var = loaded[0].targets[0].id
+        ok = any(isinstance(n, ast.Call) and norm(n.func) == "formats[args.output_format].dump" and
+                 [norm(a) for a in n.args] == [var, "args.outfile"] and not n.keywords for n in ast.walk(m))
+    else:
+        ok = any(isinstance(n, ast.Call) and norm(n.func) == "formats[args.output_format].dump" and
+                 [norm(a) for a in n.args] == ["pvl.load(args.infile)", "args.outfile"] for n in ast.walk(m))
+    ok = ok and not any(isinstance(n, ast.Try) for n in ast.walk(m))
     res.oblige("F1", "pvl_translate.main: pvl.load(infile) -> formats[fmt].dump(module, outfile), no exception handling in between", ok=ok)
     if not ok:
         res.add(Finding("F1", "pvl_translate.main", "load -> dump chain", "pvl_translate.main no longer loads the input with "
@@ -462,8 +539,20 @@ def rule_l1(repo, res):
     loops = [n for n in m.body if isinstance(n, ast.For)]
     ok = len(loops) == 1 and norm(loops[0].iter) == "args.file" and \
         sum(1 for s in loops[0].body if isinstance(s, ast.Expr) and "results_list.append" in norm(s)) == 1
-    inner_ok = ok and any(isinstance(s, ast.For) and norm(s.iter) == "dialects.items()" and
-                          any("pvl_flavor(pvl_text, k, v, f, args.verbose)" in norm(x) for x in ast.walk(s)) for s in loops[0].body)
+    inner_ok = False
+    if ok:
+        fvar = norm(loops[0].target)
+        texts = [norm(s.targets[0]) for s in loops[0].body if isinstance(s, ast.Assign) and norm(s.value) == f"pvl.get_text_from({fvar})"]
+        for s in loops[0].body:
+            if isinstance(s, ast.For) and norm(s.iter) == "dialects.items()" and isinstance(s.target, ast.Tuple) and len(s.target.elts) == 2:
+                k, v = norm(s.target.elts[0]), norm(s.target.elts[1])
+                for x in ast.walk(s):
+                    if isinstance(x, ast.Call) and norm(x.func) == "pvl_flavor" and texts and \
+                            [norm(a) for a in x.args] == [texts[0], k, v, fvar, "args.verbose"]:
+                        # stored under the dialect's name
+                        par = getattr(x, "_parent", None)
+                        if isinstance(par, ast.Assign) and isinstance(par.targets[0], ast.Subscript) and norm(par.targets[0].slice) == k:
+                            inner_ok = True
     res.oblige("L1", "pvl_validate.main: for every file, every dialect row is evaluated and one result is appended", ok=ok and inner_ok)
     if not (ok and inner_ok):
         res.add(Finding("L1", "pvl_validate.main", "per-file loop", "main no longer evaluates every dialect for every file with one "
